@@ -304,6 +304,81 @@ func translateTarget(repo string, t target, funcs map[string]*fnSig, consts map[
 		fmt.Fprintf(&b, "def %s %s : Bool :=\n  %s\n\n", t.lean, ps, v.lean)
 		fmt.Fprintf(&b, "def %s_ok %s : Bool :=\n  %s\n\n", t.lean, ps, conj(v.panics, "true"))
 		return emitted{text: b.String()}
+	case "rejects":
+		// the disjunction of every `if` condition of the function (source order, without the `err != nil` ones) that mentions
+		// the ONE field of the target.  A Dec field `p.X` stands for the local variable parsed from it
+		// (`v, err := math.LegacyNewDecFromStr(p.X)`); an Int field is used as it is written.
+		fn := findFunc(f, t.recv, t.name)
+		if fn == nil || len(t.fields) != 1 {
+			bad("function %s not found / one field expected", t.name)
+		}
+		fl := t.fields[0]
+		name := fl.path
+		if fl.t == tDec {
+			name = ""
+			ast.Inspect(fn, func(n ast.Node) bool {
+				as, ok := n.(*ast.AssignStmt)
+				if !ok || len(as.Rhs) != 1 || len(as.Lhs) != 2 {
+					return true
+				}
+				call, ok := as.Rhs[0].(*ast.CallExpr)
+				if !ok || len(call.Args) != 1 || !strings.HasSuffix(exprText(token.NewFileSet(), call.Fun), "LegacyNewDecFromStr") || exprText(token.NewFileSet(), call.Args[0]) != fl.path {
+					return true
+				}
+				if id, ok := as.Lhs[0].(*ast.Ident); ok {
+					name = id.Name
+				}
+				return true
+			})
+			if name == "" {
+				bad("no variable parsed from %s", fl.path)
+			}
+		}
+		mentions := func(e ast.Expr) bool {
+			hit := false
+			ast.Inspect(e, func(n ast.Node) bool {
+				if x, ok := n.(ast.Expr); ok && exprText(token.NewFileSet(), x) == name {
+					hit = true
+				}
+				return !hit
+			})
+			return hit
+		}
+		ev.vars[name] = fl.t
+		var parts, oks []string
+		// only statements of the function body itself count (a check nested under another condition is not unconditional),
+		// and only those whose branch ends in `return <something other than nil>`
+		for _, st := range fn.Body.List {
+			is, ok := st.(*ast.IfStmt)
+			if !ok || isErrNotNil(is.Cond) || !mentions(is.Cond) {
+				continue
+			}
+			rejecting := false
+			if n := len(is.Body.List); n > 0 && is.Else == nil {
+				if rs, ok := is.Body.List[n-1].(*ast.ReturnStmt); ok && len(rs.Results) == 1 {
+					if id, ok := rs.Results[0].(*ast.Ident); !ok || id.Name != "nil" {
+						rejecting = true
+					}
+				}
+			}
+			if !rejecting {
+				bad("the branch of `if %s` does not end in returning an error", exprText(token.NewFileSet(), is.Cond))
+			}
+			v := ev.expr(is.Cond)
+			if v.t != tBool {
+				bad("condition of type %s", v.t)
+			}
+			parts = append(parts, v.lean)
+			oks = append(oks, v.panics...)
+		}
+		if len(parts) == 0 {
+			bad("no condition mentions %s", name)
+		}
+		ps := fmt.Sprintf("(%s : %s)", leanIdent(name), leanType(fl.t))
+		var b strings.Builder
+		fmt.Fprintf(&b, "def %s %s : Bool :=\n  %s\n\n", t.lean, ps, strings.Join(parts, " ||\n  "))
+		fmt.Fprintf(&b, "def %s_ok %s : Bool :=\n  %s\n\n", t.lean, ps, conj(oks, "true"))
+		return emitted{text: b.String()}
 	}
 	bad("kind %s", t.kind)
 	return
